@@ -135,6 +135,9 @@ def run(ctx):
             try:
                 if any(a == b for j, a in enumerate(vsn) for b in vsn[j + 1:]):
                     continue  # a repeated version: not a well-formed range
+                cname = R.version_class.__name__
+                if any(gens.order_excluded(cname, a, b) for j, a in enumerate(vsn) for b in vsn[j + 1:]):
+                    continue  # the order itself is excluded there (C01): alpm pkgrel mixing, conan number-vs-word
                 cons = [vc.VersionConstraint(comparator=vers.TEXT[r.choice(vers.OPS)], version=v) for v in vsn]
                 a = R(constraints=cons)
                 b = R(constraints=tuple(reversed(cons)))
